@@ -13,7 +13,7 @@ Facts recorded:
 import ast
 import copy
 
-from ..srcmodel import AnalysisError, U
+from ..srcmodel import AnalysisError, U, clone
 
 
 def T(e):
@@ -37,7 +37,7 @@ class Subst(ast.NodeTransformer):
 
     def visit_Name(self, node):
         if isinstance(node.ctx, ast.Load) and node.id in self.env and not any(node.id in b for b in self.bound):
-            return simplify(copy.deepcopy(self.env[node.id]), self.pc)
+            return simplify(clone(self.env[node.id]), self.pc)
         return node
 
     def scoped(self, node):
@@ -128,7 +128,7 @@ class BlockEval:
         self.calls = []             # expression statements that are calls (stmt, expanded call, pc)
 
     def sub(self, e, pc, env=None):
-        return simplify(Subst(self.env if env is None else env, pc).visit(copy.deepcopy(e)), pc)
+        return simplify(Subst(self.env if env is None else env, pc).visit(clone(e)), pc)
 
     def run(self, stmts, pc=()):
         self.block(stmts, list(pc))
@@ -200,7 +200,7 @@ class BlockEval:
             for k in set(a) | set(b):
                 va = a.get(k, ast.Name(id=k, ctx=ast.Load()))
                 vb = b.get(k, ast.Name(id=k, ctx=ast.Load()))
-                out[k] = va if T(va) == T(vb) else ast.IfExp(test=copy.deepcopy(t), body=va, orelse=vb)
+                out[k] = va if T(va) == T(vb) else ast.IfExp(test=clone(t), body=va, orelse=vb)
             self.env = out
             return
         if isinstance(s, ast.For) and self.loop_ok is not None and self.loop_ok(s) and not s.orelse:
